@@ -127,6 +127,7 @@ func NewStoreWithConfig(cfg Config) *Store {
 	}
 	s.regions = newRegionManager(cfg.Manifest, combinedHooks)
 	s.command = newCommandPipeline(cfg.CommandApplier)
+	s.command.seq = proposalIDBase(cfg.StoreID, time.Now())
 	s.operations = newOperationScheduler(queueSize, operationInterval, operationCooldown, operationBurst, s.applyOperation, s.operationHook)
 	if cfg.Manifest != nil {
 		s.regions.loadSnapshot(cfg.Manifest.RegionSnapshot())
